@@ -319,7 +319,7 @@ Definition fr_cycle_ok (first : bool) (start endt prev wlast tgt t wobs : Z) : b
   && (negb (t <? tgt) || ((wlast <=? t) && (prev + MIN_TD <=? t))).    (* a wake-up cycle is stamped by the clock *)
 
 Definition fr_step (c : cfg) (f : fst_) (e : fev) : option fst_ :=
-  if f_done f then None else
+  if f_done f then (match e with FAct _ | FActRet _ => Some f | _ => None end) else   (* a call may return after the run did *)
   match e with
   | FStarted => if f_started f then None else
       Some (mkF (f_pend f) (f_prev f) (f_wlast f) (f_ncyc f) (f_consec f) (f_stopinit f) (f_stopret f)
